@@ -261,6 +261,8 @@ Section Epochs.
     { unfold m in Erej. destruct (blk_more (bodies e) szx k) eqn:Mm; [|lia].
       destruct (F3 eq_refl). lia. }
     fold (blk_arr_of (bodies e) szx (sizes e) k).
+    destruct (cr_restart c && negb (k =? 0)) eqn:Erst.
+    { split; [exact Hinv|exact I]. }
     destruct (cr_st c) as [s|] eqn:Est.
     - (* transfer in progress *)
       unfold ep_inv in Hinv. rewrite Est in Hinv.
@@ -338,12 +340,13 @@ Section Lossless.
 
   (* ---------------- Block2 *)
   Lemma ll_cli_recv_same (cst : blk_crcv) e k : 0 <= k < K ->
-    (cr_st cst = None \/ cr_etag cst = Some e) ->
+    (cr_st cst = None \/ cr_etag cst = Some e) -> cr_restart cst = false ->
     blk_cli_recv junk cst {| rs_etag := Some e; rs_arr := blk_arr_of body szx size k |} =
-    ({| cr_etag := Some e; cr_st := fst (blk_cli_step junk (cr_st cst) (blk_arr_of body szx size k)) |},
+    ({| cr_etag := Some e; cr_st := fst (blk_cli_step junk (cr_st cst) (blk_arr_of body szx size k));
+        cr_restart := false |},
      snd (blk_cli_step junk (cr_st cst) (blk_arr_of body szx size k)), false).
   Proof.
-    intros Hk Hst.
+    intros Hk Hst Hrs.
     destruct (blk_slice_facts body szx k Hszx Hbody Hk) as (F1 & F2 & F3 & F4).
     unfold blk_cli_recv. cbn [rs_arr rs_etag].
     cbn [blk_arr_of ba_num ba_m ba_szx ba_size ba_data].
@@ -354,7 +357,7 @@ Section Lossless.
     destruct (blk_chunk szx <? len d) eqn:Eov; [lia|].
     destruct ((m =? 1) && negb (len d =? blk_chunk szx)) eqn:Erej.
     { unfold m in Erej. destruct (blk_more body szx k) eqn:Mm; [|lia]. destruct (F3 eq_refl). lia. }
-    fold (blk_arr_of body szx size k).
+    fold (blk_arr_of body szx size k). rewrite Hrs. cbn [andb].
     assert (R : match cr_st cst with None => Some e | Some _ => cr_etag cst end = Some e).
     { destruct (cr_st cst); [destruct Hst as [X|X]; [discriminate|exact X]|reflexivity]. }
     rewrite R. cbn [blk_etag_eq]. rewrite Z.eqb_refl.
@@ -363,14 +366,14 @@ Section Lossless.
 
   Lemma ll_b2_follow e : forall (n : nat) j (cst : blk_crcv) (extra : nat),
     0 <= j -> j + Z.of_nat n = K - 1 ->
-    (cr_st cst = None \/ cr_etag cst = Some e) ->
+    (cr_st cst = None \/ cr_etag cst = Some e) -> cr_restart cst = false ->
     blk_run (blk_cli_step junk) (cr_st cst)
       (map (blk_arr_of body szx size) (blk_range_from j (Z.of_nat (S n))))
       = repeat BoContinue n ++ [BoDeliver body] ->
     blk_b2_loop (S n + extra) junk body szx size (Some e) cst j
       = repeat BoContinue n ++ [BoDeliver body].
   Proof.
-    induction n as [|n IH]; intros j cst extra Hj Hn Hst Hrun.
+    induction n as [|n IH]; intros j cst extra Hj Hn Hst Hrs Hrun.
     - cbn [Nat.add blk_b2_loop]. rewrite ll_cli_recv_same by (try assumption; lia).
       rewrite blk_range_from_cons in Hrun by lia. cbn [map blk_run] in Hrun.
       destruct (blk_cli_step junk (cr_st cst) (blk_arr_of body szx size j)) as [st' o].
@@ -385,19 +388,20 @@ Section Lossless.
       assert (Mm : blk_more body szx j = true) by (apply ll_more; lia). rewrite Mm.
       cbn [Z.eqb Pos.eqb]. f_equal.
       replace (Z.of_nat (S (S n)) - 1) with (Z.of_nat (S n)) in Hrest by lia.
-      exact (IH (j + 1) {| cr_etag := Some e; cr_st := st' |} extra ltac:(lia) ltac:(lia)
-               (or_intror eq_refl) Hrest).
+      exact (IH (j + 1) {| cr_etag := Some e; cr_st := st'; cr_restart := false |} extra
+               ltac:(lia) ltac:(lia) (or_intror eq_refl) eq_refl Hrest).
   Qed.
 
   (* Block2 without loss: the client asks for block after block; exactly one delivery, of the
      body, and nothing else *)
   Theorem blk_b2_lossless e :
-    blk_b2_loop (Z.to_nat K) junk body szx size (Some e) {| cr_etag := None; cr_st := None |} 0
+    blk_b2_loop (Z.to_nat K) junk body szx size (Some e)
+      {| cr_etag := None; cr_st := None; cr_restart := false |} 0
     = repeat BoContinue (Z.to_nat (K - 1)) ++ [BoDeliver body].
   Proof.
     destruct ll_K_bounds as (Hc & B & K1).
     replace (Z.to_nat K) with (S (Z.to_nat (K - 1)) + 0)%nat by lia.
-    apply ll_b2_follow; [lia|lia|left; reflexivity|].
+    apply ll_b2_follow; [lia|lia|left; reflexivity|reflexivity|].
     cbn [cr_st]. replace (Z.of_nat (S (Z.to_nat (K - 1)))) with K by lia.
     rewrite blk_range_from_0. apply blk_cli_inorder; assumption.
   Qed.
